@@ -215,7 +215,7 @@ def run_x86_calls(res, widths=(8, 16, 32, 64), masks=None, max_report=4):
     return stats
 
 
-def run_jit_programs(res, cases, levels, max_report=4):
+def run_jit_programs(res, cases, levels, max_report=4, limited=False):
     """Per-instruction certified validation of the machine code of whole programs: every generated
     program is compiled once (bytecode + machine code + code offset of each bytecode instruction);
     each instruction's code is disassembled and handed to the certified checker of its kind —
@@ -231,7 +231,7 @@ def run_jit_programs(res, cases, levels, max_report=4):
     rep = 0
     kind_of = {"m": "mov", "a": "arith", "u": "arith", "x": "arith", "c": "arith", "i": "io", "o": "io", "z": "branch", "nz": "branch"}
     for level in levels:
-        outs = C.run_lines(hv, ["mcprog|%d|%d|0|1|%s" % (c.w, level, P.hexs(c.src)) for c in cases])
+        outs = C.run_lines(hv, ["mcprog|%d|%d|%d|1|%s" % (c.w, level, 1 if limited else 0, P.hexs(c.src)) for c in cases])
         jobs = []
         for c, o in zip(cases, outs):
             if not o.startswith("ok "):
@@ -267,6 +267,10 @@ def run_jit_programs(res, cases, levels, max_report=4):
                 elif k in ("i", "o"):
                     lines.append("x86call|%s|%s" % (one, ";".join(x86tr.translate_call(t, w, locs[i], term) for t in di)))
                 elif k in ("z", "nz"):
+                    if limited:          # the budget check comes first
+                        lines.append("x86limit|%s" % x86tr.translate_limit(di[:5], locs[i], term))
+                        meta.append((j, di))
+                        di = di[5:]
                     lines.append("x86br|%s|%s" % (one, x86tr.translate_br(di, w, locs[i], locs[i + int(tk[2])])))
                 else:
                     raise x86tr.Unsupported("bytecode instruction kind " + k)
@@ -281,7 +285,8 @@ def run_jit_programs(res, cases, levels, max_report=4):
         verdicts = C.run_lines(driver, lines)
         for (j, di), v, line in zip(meta, verdicts, lines):
             if v == "ok":
-                stats["accepted"][kind_of[j[2][0]]] += 1
+                key = "limit" if line.startswith("x86limit") else kind_of[j[2][0]]
+                stats["accepted"][key] = stats["accepted"].get(key, 0) + 1
                 continue
             stats["rejected"] += 1
             if rep < max_report:
